@@ -118,34 +118,25 @@ theorem rhs_objective (Q : Mat3) (hQ : IsOrth Q) (phase fabric : Int) (n : ℕ) 
   have hx' := extractVars_packY n (conj Q F) ⟨rotA Q t.A, t.f⟩ (by simp [rotA_length, hA]) hf hc'
   have hfN : (extractTex ⟨rotA Q t.A, t.f⟩).f = (extractTex t).f := by simp [extractTex]
   have hfNlen : (extractTex t).f.length = n := by simp [extractTex, hf]
-  rcases hcase with ⟨he, hout⟩ | ⟨he, ad, fd, hd, hout⟩
-  · -- vanishing strain rate
-    subst hout
-    simp only [evalRhs, hphi, he, Req_iff, if_true, hx, hx', F_objective Q _ _ hQ]
-    congr 1
-    unfold actY
-    rw [zeros_as_texture n]
-    have := unpackY_packY n (mmul env.L F) ⟨List.replicate n zero3, List.replicate n 0⟩ (by simp) (by simp)
-    simp only [packY, List.append_assoc] at this ⊢
-    rw [this]
-    simp only [rotA_zero]
-  · subst hout
-    rw [hx] at hd
-    simp only at hd
-    have hlens := derivatives_lengths _ _ _ _ _ _ _ _ _ (by rw [hfNlen, hA]) (ad, fd) hd
-    have hd' := rates_objective Q hQ env.regime phase fabric hreg t.A (extractTex t).f
-      (ndD env.L env.emax) (ndL env.L env.emax) env.spin spin' ⟨mp.p, mp.n, mp.lam, mp.M, phi⟩ (ad, fd) hd
-    rw [← (nd_objective Q env.L env.emax).1, ← (nd_objective Q env.L env.emax).2] at hd'
-    unfold ndD ndL at hd'
-    simp only [evalRhs, hphi, he, Req_iff, if_false, hx', hfN, Mat3.memo_eq, hd', F_objective Q _ _ hQ, hx]
-    congr 1
-    unfold actY
-    rw [flat_smul, flat_smul]
-    have hu := unpackY_packY n (mmul env.L F)
-      ⟨ad.map (fun a => fun i j => a i j * env.emax), fd.map (· * env.emax)⟩
-      (by simp [hlens.1, hA]) (by simp [hlens.2, hA])
-    simp only [packY] at hu ⊢
-    rw [hu]
-    simp only [rotA_smul]
+  obtain ⟨ad, fd, hd, hout⟩ := hcase
+  have hsc : rhsScale { env with L := conj Q env.L, spin := spin' } = rhsScale env := rfl
+  subst hout
+  rw [hx] at hd
+  simp only at hd
+  have hlens := derivatives_lengths _ _ _ _ _ _ _ _ _ (by rw [hfNlen, hA]) (ad, fd) hd
+  have hd' := rates_objective Q hQ env.regime phase fabric hreg t.A (extractTex t).f
+    (ndD env.L (rhsScale env)) (ndL env.L (rhsScale env)) env.spin spin' ⟨mp.p, mp.n, mp.lam, mp.M, phi⟩ (ad, fd) hd
+  rw [← (nd_objective Q env.L (rhsScale env)).1, ← (nd_objective Q env.L (rhsScale env)).2] at hd'
+  unfold ndD ndL rhsScale at hd'
+  simp only [evalRhs, hphi, Req_iff, hx', hfN, Mat3.memo_eq, hd', F_objective Q _ _ hQ, hx]
+  congr 1
+  unfold actY
+  rw [flat_smul, flat_smul]
+  have hu := unpackY_packY n (mmul env.L F)
+    ⟨ad.map (fun a => fun i j => a i j * rhsScale env), fd.map (· * rhsScale env)⟩
+    (by simp [hlens.1, hA]) (by simp [hlens.2, hA])
+  simp only [packY, rhsScale] at hu ⊢
+  rw [hu]
+  simp only [rotA_smul]
 
 end ModelR
